@@ -1093,19 +1093,6 @@ func wktSchema(src protoreflect.MessageDescriptor, ext protoFieldExtensions) (Fi
 			},
 		}, true, nil
 
-	case "google.protobuf.Duration":
-		return &ScalarSchema{
-			Kind:              protoreflect.MessageKind,
-			WellKnownTypeName: fullName,
-			Proto: &schema_j5pb.Field{
-				Type: &schema_j5pb.Field_String_{
-					String_: &schema_j5pb.StringField{
-						Format: Ptr("duration"),
-					},
-				},
-			},
-		}, true, nil
-
 	case "j5.types.date.v1.Date":
 		var rules *schema_j5pb.DateField_Rules
 
